@@ -82,6 +82,10 @@ func (cmpl *compiler) parseExpression(expr ast.Expression) nodeExpression {
 			identifier: expr.Identifier.Name,
 		}
 
+	case *ast.BadExpression:
+		// The parser's placeholder for a syntax error: the program was run although parsing it failed.
+		panic(newError(nil, "SyntaxError", 0, "invalid expression"))
+
 	case *ast.EmptyExpression:
 		return nil
 
@@ -201,6 +205,10 @@ func (cmpl *compiler) parseStatement(stmt ast.Statement) nodeStatement {
 	}
 
 	switch stmt := stmt.(type) {
+	case *ast.BadStatement:
+		// The parser's placeholder for a syntax error: the program was run although parsing it failed.
+		panic(newError(nil, "SyntaxError", 0, "invalid statement"))
+
 	case *ast.BlockStatement:
 		out := &nodeBlockStatement{
 			list: make([]nodeStatement, len(stmt.List)),
